@@ -5,6 +5,7 @@ package main
 
 import (
 	"fmt"
+	"os"
 	"sort"
 	"strconv"
 	"strings"
@@ -348,7 +349,14 @@ func c02Monitor(c *Ctx, a *app.VerifAsset, name string, cf cfgVar, now int64, li
 		if len(decl) > 0 && !decl[0].tlEx && !uniformRef(a) {
 			// a duration template cannot describe varying segment durations exactly ("within the duration variation"):
 			// the implicit list is only checked for constant-duration assets
-			c.Count("template-variable-durations-skipped")
+			// the implicit list is checked within the variation of the reference grid around its average segment duration
+			// (only where livesim2 derives the duration itself: a VoD MPD that states a nominal @duration over varying
+			// segment durations is passed on as it is)
+			if vodTemplateHasNoDuration(a.AssetPath, name, as.Representations[0].ID) {
+				c02VarTemplate(c, a, as, ct, decl, cf, now, line)
+			} else {
+				c.Count("template-variable-durations-skipped")
+			}
 			continue
 		}
 		repID := as.Representations[0].ID
@@ -529,6 +537,92 @@ func c05Edges(c *Ctx, a, b *xMPD, rp []string) {
 		}
 		if eb[len(eb)-1][0] < ea[len(ea)-1][0] {
 			c.Violate("last-moves-back", fmt.Sprintf("last listed segment moved back from t=%d to t=%d", ea[len(ea)-1][0], eb[len(eb)-1][0]), rp, nil)
+		}
+	}
+}
+
+// vodTemplateHasNoDuration: the AdaptationSet of the VoD MPD that holds repID has a SegmentTemplate without @duration.
+func vodTemplateHasNoDuration(asset, name, repID string) bool {
+	b, err := os.ReadFile(vodRoot() + "/" + asset + "/" + name)
+	if err != nil {
+		return false
+	}
+	vm, err := parseMPD(b)
+	if err != nil || len(vm.Periods) == 0 {
+		return false
+	}
+	for i := range vm.Periods[0].Sets {
+		vs := &vm.Periods[0].Sets[i]
+		for _, r := range vs.Representations {
+			if r.ID == repID {
+				return vs.SegmentTemplate != nil && vs.SegmentTemplate.Duration == nil
+			}
+		}
+	}
+	return false
+}
+
+// refVariationMS: how far (ms, rounded up) a segment boundary of the reference representation is from the grid of its
+// average segment duration, over one loop (the pattern repeats with the loop).
+func refVariationMS(a *app.VerifAsset) int64 {
+	r := refRepOf(a)
+	if r == nil || len(r.Segments) == 0 {
+		return 0
+	}
+	n := int64(len(r.Segments))
+	t0 := int64(r.Segments[0].StartTime)
+	loop := int64(r.Segments[n-1].EndTime) - t0
+	var dev int64 // in ticks * n
+	for k, sg := range r.Segments {
+		for _, v := range []int64{(int64(sg.StartTime)-t0)*n - int64(k)*loop, (int64(sg.EndTime)-t0)*n - int64(k+1)*loop} {
+			if v < 0 {
+				v = -v
+			}
+			if v > dev {
+				dev = v
+			}
+		}
+	}
+	T := int64(r.MediaTimescale) * n
+	return (dev*1000 + T - 1) / T
+}
+
+// c02VarTemplate: a duration template over varying segment durations.  Every declared segment is served at the latest
+// one variation after the instant the template implies, carries the declared number, and its decode time is within the
+// variation (plus one audio frame) of the declared one.
+func c02VarTemplate(c *Ctx, a *app.VerifAsset, as *xAS, ct string, decl []declared, cf cfgVar, now int64, line string) {
+	v := refVariationMS(a)
+	if v <= 0 || v >= 9000 || len(decl) == 0 { // (the window margin is 10 s)
+		c.Count("template-variable-durations-skipped")
+		return
+	}
+	repID := as.Representations[0].ID
+	later := strconv.FormatInt(now+v+1, 10)
+	idxs := map[int]bool{0: true, len(decl) - 1: true, len(decl) / 2: true, 1: true}
+	for j, d := range decl {
+		if !c.Thorough() && !idxs[j] {
+			continue
+		}
+		u := d.url[:strings.LastIndex(d.url, "?nowMS=")] + "?nowMS=" + later
+		f := fetchSegment(u, a, repID)
+		c.Count("declared-fetched-variable." + ct)
+		rp := []string{line, "# GET " + u}
+		tol := (v + 70) * d.ts // ms * ts
+		diff := (int64(f.tfdt) - d.t) * 1000
+		if diff < 0 {
+			diff = -diff
+		}
+		switch {
+		case f.panic != "":
+			c.Violate("declared-panic", fmt.Sprintf("%s: declared segment %d of %d panics (%s)", ct, j, len(decl), f.panic), rp, nil)
+		case f.tie:
+		case f.code != 200:
+			c.Violate("declared-not-served", fmt.Sprintf("%s: segment %d of %d declared by the duration template (nr=%d, t=%d/%d) answered %d even %d ms (the duration variation of the asset) after the MPD instant", ct, j, len(decl), d.nr, d.t, d.ts, f.code, v), rp, nil)
+		case ct == "image":
+		case d.nr >= 0 && int64(f.nr) != d.nr%(1<<32):
+			c.Violate("declared-number", fmt.Sprintf("%s: MPD declares number %d, segment carries %d", ct, d.nr, f.nr), rp, nil)
+		case diff > tol:
+			c.Violate("declared-time", fmt.Sprintf("%s: the duration template puts number %d at t=%d/%d, the segment has tfdt=%d: further apart than the duration variation %d ms", ct, d.nr, d.t, d.ts, f.tfdt, v), rp, nil)
 		}
 	}
 }
